@@ -75,3 +75,11 @@ package config
 //@   option aliasscreen
 //@   ensures [copy] result != nil && result != c && result.MaxReplicas == c.MaxReplicas && result.IsolationLevel == c.IsolationLevel && len(result.LocationLabels) == len(c.LocationLabels)
 //@   ensures [labels] forall i :: 0 <= i && i < len(c.LocationLabels) ==> result.LocationLabels[i] == c.LocationLabels[i]
+
+// Configuration getters used by the operator builder: read-only.
+//@ func (*PersistOptions).IsPlacementRulesEnabled
+//@   assumed
+//@   modifies nothing
+//@ func (*PersistOptions).IsUseJointConsensus
+//@   assumed
+//@   modifies nothing
